@@ -28,7 +28,10 @@ use starknet_types_core::felt::Felt as Felt252;
 use crate::cases::{Case, Shape, Ty, coq_z};
 use crate::Done;
 
-pub const CORELIB: &str = "/repo/corelib/src";
+/// corelib of the tree under test ($VERIF_REPO, default /repo)
+pub fn corelib() -> String {
+    format!("{}/corelib/src", std::env::var("VERIF_REPO").ok().filter(|s| !s.is_empty()).unwrap_or_else(|| "/repo".to_string()))
+}
 
 pub fn build_db(skip_const_folding: bool) -> RootDatabase {
     let mut b = RootDatabase::builder();
@@ -39,7 +42,7 @@ pub fn build_db(skip_const_folding: bool) -> RootDatabase {
     };
     b.with_optimizations(opt);
     let mut db = b.build().expect("RootDatabase");
-    init_dev_corelib(&mut db, PathBuf::from(CORELIB));
+    init_dev_corelib(&mut db, PathBuf::from(corelib()));
     db
 }
 
